@@ -14,6 +14,7 @@ package req
 
 import (
 	"bytes"
+	"errors"
 	"fmt"
 	"io"
 	"math/rand"
@@ -30,6 +31,8 @@ import (
 
 	"github.com/imroc/req/v3/internal/verifh"
 )
+
+var errC20Prior = errors.New("verif: earlier middleware failed")
 
 type c20Seen struct {
 	method, uri, auth, ctype string
@@ -262,7 +265,14 @@ func c20Exchange(t *testing.T, s *verifh.Session, r *rand.Rand, o *c20Origin, mo
 	}
 	defer c.GetTransport().CloseIdleConnections()
 	rq := c.R()
+	priorErr := false
 	if r.Intn(2) == 0 {
+		if mode.fixed == nil && r.Intn(12) == 0 {
+			// an earlier response middleware failed: the digest middleware must leave the response alone
+			priorErr = true
+			c.OnAfterResponse(func(*Client, *Response) error { return errC20Prior })
+			count("prior-middleware-error")
+		}
 		c.SetCommonDigestAuth(user, pass)
 		count("via:client")
 	} else {
@@ -342,6 +352,9 @@ func c20Exchange(t *testing.T, s *verifh.Session, r *rand.Rand, o *c20Origin, mo
 	if status == 0 {
 		status, errFlag = 401, "1" // transport error: no response at all
 	}
+	if priorErr {
+		errFlag = "1"
+	}
 	lane := "c20kind"
 	if mode.identity {
 		lane = "c20handle"
@@ -356,6 +369,8 @@ func c20Exchange(t *testing.T, s *verifh.Session, r *rand.Rand, o *c20Origin, mo
 		impl = "untouched"
 	case len(seen) == 1 && derr == "other" && sc.firstStatus == 0:
 		impl = "untouched" // the transport error is passed on as it is
+	case len(seen) == 1 && priorErr && errors.Is(resp.Err, errC20Prior):
+		impl = "untouched" // the earlier middleware's error is passed on as it is
 	case len(seen) == 1 && derr != "other":
 		impl = "err " + derr
 	case len(seen) == 2 && resp.Err == nil:
@@ -378,7 +393,11 @@ func c20Exchange(t *testing.T, s *verifh.Session, r *rand.Rand, o *c20Origin, mo
 			ok, why = false, w
 		}
 	}
-	if sc.firstStatus != 401 {
+	if priorErr {
+		if len(seen) != 1 || !errors.Is(resp.Err, errC20Prior) {
+			fail(fmt.Sprintf("a response that already carries an error was acted upon: requests=%d err=%v", len(seen), resp.Err))
+		}
+	} else if sc.firstStatus != 401 {
 		// responses other than 401 are left untouched: one request, status and body as served
 		if len(seen) != 1 {
 			fail(fmt.Sprintf("%d requests for a non-401 response", len(seen)))
@@ -587,7 +606,7 @@ func TestVerif_C20_handle(t *testing.T) {
 	cnt, count := c20Counter(s)
 	known := map[string]int{}
 	n := verifh.N(1500, 30000)
-	must := []string{"outcome:untouched", "outcome:resend", "outcome:err bad-challenge", "outcome:err alg", "outcome:err qop", "status:0", "status:401", "status:200", "verifier-accepted", "body:multipart", "body:stream", "body:big"}
+	must := []string{"outcome:untouched", "outcome:resend", "outcome:err bad-challenge", "outcome:err alg", "outcome:err qop", "prior-middleware-error", "status:0", "status:401", "status:200", "verifier-accepted", "body:multipart", "body:stream", "body:big"}
 	for i := range c20Witnesses {
 		c20Exchange(t, s, r, o, c20Run{identity: true, fixed: &c20Witnesses[i]}, known, count)
 	}
